@@ -57,3 +57,9 @@ fn format_names_table() {
 	assert!(code(try_parse_format("toml").ok()) == Some(2) && code(try_parse_format("yaml").ok()) == Some(3));
 	assert!(try_parse_format("yml").is_err() && try_parse_format("JSON").is_err());
 }
+
+// (An attempt to drive main() itself under Kani -- stubbing Cli::parse_args, InputPath::open, the extension table,
+// process::exit and the library's Translator::translate_* entry points -- failed: Kani 0.68 refuses to stub the generic
+// methods of xt::Translator<W> from the bin crate ("Expected type `&mut xt::Translator<W>` ... but found `&mut
+// xt::Translator<W>`"), and without those stubs main() reaches file-descriptor I/O.  The per-input precedence
+// `-f` > extension > detection inside main() therefore stays outside the contracts; see DESIGN 12.8.)
